@@ -9,6 +9,7 @@ import (
 	"math/big"
 
 	"github.com/youchainhq/go-youchain/common"
+	"github.com/youchainhq/go-youchain/params"
 )
 
 // VerifC04Choose is choose (sortition.go).
@@ -24,3 +25,13 @@ func VerifC04ComputePriority(hash common.Hash, j *big.Int) common.Hash {
 
 // VerifC04MaxHash is maxVrfHashValue (init.go).
 func VerifC04MaxHash() *big.Int { return new(big.Int).Set(maxVrfHashValue) }
+
+// VerifC04IsProposer is SortitionManager.isProposer (sortition_mgr.go).
+func (sm *SortitionManager) VerifC04IsProposer(round *big.Int, roundIndex uint32) (bool, *StepView) {
+	return sm.isProposer(round, roundIndex)
+}
+
+// VerifC04IsValidator is SortitionManager.isValidator (sortition_mgr.go).
+func (sm *SortitionManager) VerifC04IsValidator(round *big.Int, roundIndex uint32, step uint32, lbType params.LookBackType) (bool, *StepView) {
+	return sm.isValidator(round, roundIndex, step, lbType)
+}
